@@ -788,6 +788,16 @@ def _apply_bound(E, c, st, env, module, where):
     for path, expr in c.sets.items():
         v = eval_single(E, expr, st)
         _store_path(E, st, path, v)
+    for pname, keys in (c.options.get('dict_pops') or {}).items():
+        # effect on a keyword-record argument: these keys are removed (if present).  The contract must prove it as an ensures
+        # clause (`'key' not in dict_parameters`) when it is verified against the real function.
+        dref = env.get(pname)
+        if not (isinstance(dref, Ref) and st.heap[dref.oid].kind == 'dict'):
+            raise Unsupported('dict_pops target %s is not a dict' % pname)
+        for k in keys:
+            if k in st.heap[dref.oid].items:
+                del st.heap[dref.oid].items[k]
+                st.writes.append((dref.oid, '<items>'))
     results = []
     if c.returns is not None:
         results.append((st, eval_single(E, c.returns, st)))
@@ -912,7 +922,7 @@ def apply_opaque(E, qualname, st, args, kwargs):
         fr.spec_mode = True
         s0.frames.append(fr)
         guard = st.ghost.get('_uf_fact_depth', 0)
-        if guard < 3:
+        if guard < 2:
             s0.ghost['_uf_fact_depth'] = guard + 1
             for cl in facts:
                 g = eval_clause(E, cl, s0)
